@@ -41,8 +41,11 @@ def scanner_constants(repo: Repo) -> dict[str, str]:
         if isinstance(n, ast.Assign) and isinstance(n.value, ast.Call) and ast.unparse(n.value.func) == "re.compile" and isinstance(n.targets[0], ast.Name):
             try:
                 out[n.targets[0].id] = ast.literal_eval(n.value.args[0])
-            except ValueError as e:
-                raise AnalysisError(f"{SCANNER}::{n.targets[0].id}: pattern is not a literal") from e
+            except ValueError:
+                # a pattern assembled from other patterns: its language is not read here (a comparison that needs it
+                # says so); FRONT-END runs it, through the engine, on the model texts
+                out[n.targets[0].id + "#computed"] = ast.unparse(n.value.args[0])
+                continue
             if len(n.value.args) > 1 or n.value.keywords:
                 out[n.targets[0].id + "#flags"] = ast.unparse(n.value)
     return out
@@ -538,7 +541,7 @@ def run(tier: str) -> Check:
         "decoded values beyond the escape table (cursor arithmetic) are C12's subject",
     ]
     consts = scanner_constants(repo)
-    token_languages(check, repo, rules, consts)
+    check.attempt(lambda: token_languages(check, repo, rules, consts))
     escape_tables(check, repo, rules)
     structure(check, repo, rules)
     front_ok = front_end(check, repo, tier)
@@ -550,7 +553,8 @@ def run(tier: str) -> Check:
     check.second_opinion(lambda c: skeleton(c, repo, rules), "FRONT-END", front_ok)
     check.second_opinion(lambda c: trivia_discipline(c, repo, rules), "FRONT-END", front_ok)
     check.floor("front_end_texts", 400)
-    check.floor("token_language_comparisons", 17)
+    if not getattr(check, "deferred", []):
+        check.floor("token_language_comparisons", 17)
     check.floor("structure_entries", 20)
     return check
 
